@@ -552,13 +552,10 @@ func TestVerifC02(t *testing.T) {
 		walks := []walk{
 			{"program(30)", c02Wide, 5},
 			{"program(20)", c02Prog, vk.Pick(c, 0, 6)},
-			{"structural(12)", c02Core, vk.Pick(c, 6, 8)},
 			{"string-escape(12)", c02Esc, vk.Pick(c, 6, 7)},
+			{"structural(12)", c02Core, vk.Pick(c, 6, 8)}, // the largest walk (12^8 in thorough) goes last
 		}
 		nFS := vk.Pick(c, 2, 3)
-		if v := os.Getenv("C02_DEBUG_DEPTHS"); v != "" { // TEMP
-			fmt.Sscan(v, &walks[0].depth, &walks[1].depth, &walks[2].depth, &walks[3].depth, &nFS)
-		}
 		rule := "depth-first walk of the tree of all token strings (every string of the stated length is visited): "
 		for _, wk := range walks {
 			if wk.depth > 0 {
